@@ -2,9 +2,9 @@
 # usage: tools/seed3.sh <Cxx> <k> <demo-package-dir> [extra go test flags for the demo]
 # Confirms a round-3 seed from /tmp/seed3-<Cxx> and evaluates it with the property's quick check.
 p=$1; k=$2; dir=$3; shift 3
-sd=/tmp/seed3-$p
+sd=/tmp/seed${SEEDROUND:-3}-$p
 {
 echo "=== $p #$k ($dir $*)"
 /verif/tools/seedconfirm2.sh $sd $k $dir "$@"
 /verif/tools/seedcheck2.sh $sd/patch$k.diff $p
-} 2>&1 | tee -a /tmp/seed3-results.log
+} 2>&1 | tee -a /tmp/seed${SEEDROUND:-3}-results.log
